@@ -59,7 +59,7 @@ def async_stage(ctx):
     if not binp:
         return
     n = ctx.cfg["n_async"][ctx.tier]
-    procs = 4 if n >= 400 else 2
+    procs = 4
     per = (n + procs - 1) // procs
     import concurrent.futures as cf
     jobs = []
@@ -106,7 +106,7 @@ CFG = {
     "coq_dirs": ["C15"],
     "n": {"quick": 1500, "thorough": 100000},
     "n_async": {"quick": 200, "thorough": 5000},
-    "shard": 250,
+    "shard": 100,
     "level": "proof",
     "stages": [vcheck.correspondence, async_stage],
     "rule": ("generated control trees (events, probes, throw, loops, try/catch/finally, JS calls, sort/forEach/getter callbacks, "
@@ -117,13 +117,42 @@ CFG = {
              "ClearInterrupt; compared: error kind + InterruptedError.Value(), the complete event log, VerifIdle "
              "(callStack,tryStack,iterStack,jobQueue,interrupted, sp=0) and kind/log/idle of a follow-up RunString; "
              "non-trivial = the call returned an InterruptedError; distinct = by hash of the case"),
-    "theorem_names": [],
+    "theorem_names": ["interrupt_prompt", "interrupt_prompt_every_level", "interrupt_prompt_total", "interrupt_prompt_sync",
+                      "interrupt_runs_no_handler", "idle_interrupt_next_call", "idle_interrupt_cleared", "no_race_flag",
+                      "interrupt_clean_refuted (F16, F20: the general interrupt_clean is NOT proved; checked by correspondence)"],
     "allowed_axioms": [],
-    "trusted_base": [],
-    "assumptions": [],
+    "trusted_base": [
+        "Coq 8.16.1 kernel + vm_compute; all theorems closed under the global context (no axioms)",
+        "hand transcription of vm.run/handleThrow/restoreStacks/vm.try/__call/runWrapped/RunProgram/leave/leaveAbrupt/"
+        "generator.next/asyncRunner.start/newPromiseReactionJob frame discipline (coq/C15/Model.v); every JS statement is one "
+        "abstract instruction, every block ends with one polled control instruction",
+        "harness/cmd/c15 (program -> JavaScript and -> Gallina renderers must agree) + /repo/verif_hooks.go VerifIdle",
+        "Go race detector for the asynchronous stage (only executed schedules)",
+    ],
+    "assumptions": [
+        "promptness is counted in abstract instructions of the model and, on the implementation, as log/probe events after "
+        "the Interrupt (no per-VM-instruction counter hook was added); never wall time",
+        "sequentially consistent traces + Go sync/atomic and sync.Mutex synchronisation edges for the interleaving model",
+        "interrupt_clean (idle state restored for every program) is proved only for the interrupt-while-idle case; for "
+        "running programs it is checked against the specification model by correspondence and refuted for F16/F20",
+    ],
     "predicates": {
         "C15.interrupt_inside_generator_or_async_resumption": p_gen_async,
         "C15.interrupt_inside_forof_with_script_return": p_forof_ret,
     },
-    "manifest": {},
+    "manifest": {
+        "text": ("proof (partial): over a Gallina transcription of the run loop, handleThrow and the frame discipline of every "
+                 "Go<->JS re-entry, proved for all programs/positions/firing times: a set flag stops every run loop before its next "
+                 "instruction, at most one instruction in the whole call tree starts with the flag set (none for same-goroutine "
+                 "interrupts), an uncatchable payload reaches no catch/finally for every try stack, an idle interrupt aborts the "
+                 "next call at its first instruction and leaves the runtime idle, and every interleaving of Interrupt calls with "
+                 "run-loop polls is race-free on interruptVal by lock order. Missing: the general idle-state-restored theorem "
+                 "(refuted on the tree for generator/async resumptions F16 and iterators with return() F20; otherwise only "
+                 "checked by correspondence), and Go-level data-race freedom beyond the protocol (race detector on executed "
+                 "schedules only). Tie: 1500/100000 generated cases with an interrupt at every probe position compare error, "
+                 "token, full event log, VerifIdle and a follow-up run with the model; 200/5000 asynchronous interrupts under -race."),
+        "note": ("trusted: Coq kernel + vm_compute; the hand-written model coq/C15/Model.v; harness renderers; VerifIdle hook; "
+                 "Go race detector. The implementation is covered by correspondence on generated cases, not by proof."),
+        "technique": "Rocq proofs over a control-skeleton model (potential argument on a micro-step clock; induction on try stack; lock-order argument over all interleavings) + differential correspondence via vm_compute + race-detector stage",
+    },
 }
